@@ -89,6 +89,50 @@ PROPS = {
                    "assumed parameters; serde default methods by documented semantics. Partial: Display adapter (correspondence "
                    "only), UTF-8 validity (per string only).",
     ),
+    "C17": dict(
+        lean_targets=["SJ.Props.C17", "SJ.Audit.C17"],
+        configs=dict(quick=["d", "po"], thorough=["d", "po"]),
+        gen_keys=["map."],
+        rule="operation histories on serde_json::Map over the keys a, b, c (and ` which sorts first): every history of "
+             "length <= 3 over the full alphabet (48 operations by default, 63 under preserve_order: every method incl. "
+             "entry API, retain, append, extend, clear, sort_keys, Index/IndexMut, get_mut, iterators, and under "
+             "preserve_order shift_insert / swap_* / shift_*), every history of length 4 over a core alphabet with at "
+             "least one instance of every operation kind (24 / 30); thorough adds every history of length 5 and 6 over "
+             "the state-changing kinds (13 / 17; length 6 under preserve_order: every 5th). Plus random histories of "
+             "5..300 operations over 4..16 keys with nested values; == and Hash between maps built by all pairs of "
+             "histories of length <= 2 and by random / rebuilt-in-another-order histories; == / SipHash / recorded hasher "
+             "calls / sort_all_objects on random nested values, their reordered and sign-of-zero rewritings and "
+             "perturbations. Each history line records every return value, the forward iteration after every operation "
+             "and the backward iteration at the end. A history is non-trivial when it has at least two operations; a "
+             "value pair when the two encodings differ; distinct = distinct case lines.",
+        trusted_base=[KERNEL, TIE,
+                      "BTreeMap / IndexMap (indexmap 2.x) modelled by their documented semantics on the entry sequence "
+                      "(insert, remove, swap_remove, shift_remove, shift_insert, extend, append, retain, sort_unstable_keys, ==)",
+                      "derive(PartialEq, Hash) on Value/Number and std's Hash impls for str, slices, tuples, BTreeMap modelled as "
+                      "the sequence of Hasher::write_* calls (checked against a recording Hasher on every generated value)"],
+        assumptions=["BTreeMap and IndexMap behave as documented (exercised by the correspondence run in both configurations)",
+                     "values stored in a Number are finite (Number::from_f64 rejects NaN/inf; the parser never produces them)",
+                     "retain predicates are pure functions of (key, value)"],
+        partial=[],
+        technique="Lean 4 theorems over two store models (ascending association list = BTreeMap, insertion-ordered list = "
+                  "IndexMap) and a Value model: refinement of a function-valued reference dictionary for every method and "
+                  "every history, order invariants, == <-> equality of abstractions, hasher input as a function of the "
+                  "abstraction, sort_all_objects; feature-dependent forwards of map.rs re-extracted every run; differential "
+                  "run of operation histories against the crate in both configurations",
+        level_text="Machine-checked Lean 4 theorems: c17_refines_btree/_index(_history) (every Map method, on every state reachable "
+                   "by any history, returns what the reference dictionary Bytes -> Option V returns and leaves its contents); "
+                   "c17_order_btree (iteration strictly ascending, backward = reverse) and c17_order_index(_nodup,_sort_keys) "
+                   "(key sequence changes exactly by the documented insertion/swap/shift rules, no duplicate keys); "
+                   "c17_eq_order_free(_btree,_index,_value) (== iff equal abstractions, at every depth, +0.0 == -0.0); "
+                   "c17_hash (equal values make identical Hasher calls; preserve_order sorts entries, Number normalises zero); "
+                   "c17_sort_all (ascending at every depth, == unchanged). Which IndexMap removal remove/remove_entry forward "
+                   "to, append/sort_keys/Hash bodies and Number's Hash are re-extracted from src on every run and consumed by "
+                   "the model; the models are replayed against the real Map on exhaustive short and long random histories.",
+        level_note="Trusted: Lean kernel + propext/Classical.choice/Quot.sound; extract.py; harness/driver comparison; BTreeMap and "
+                   "IndexMap are modelled by documented semantics, not verified themselves; SipHash itself is not modelled "
+                   "(the theorem is about hasher input; the harness checks equal input => equal DefaultHasher output). "
+                   "arbitrary_precision numbers are modelled (string equality) but not exercised (configs d, po).",
+    ),
     "C18": dict(
         lean_targets=["SJ.Props.C18", "SJ.Audit.C18"],
         configs=dict(quick=["d"], thorough=["d", "po", "ap"]),
